@@ -1,3 +1,6 @@
 -- Root of the `ShkModel` library: every property module (which pulls in models and lemmas).
 import ShkModel.Props.C01
 import ShkModel.Props.C18
+import ShkModel.Props.C02
+import ShkModel.Props.C08
+import ShkModel.Props.C11
